@@ -1,5 +1,7 @@
 (* C01 — formatting preserves every non-blank character, in order.  Statements only. *)
-From PasfmtVerif Require Import Model.Reconstruct Proofs.ReconstructProofs.
+From Coq Require Import String.
+From PasfmtVerif Require Import Model.Pipeline Model.Reconstruct Proofs.ReconstructProofs
+  Proofs.RewritersProofs Proofs.PipelineProofs.
 
 (* Reconstruction emits each token's content exactly once, in order, and nothing else that is not
    blank — for ALL counters, ignore marks and settings. *)
@@ -11,3 +13,33 @@ Proof. exact recon_strip. Qed.
 (* Every configuration yields well-formed settings (so the premise above is never vacuous) *)
 Theorem C01_settings_wf : forall crlf tabs tw ci, rs_wf (rs_of_config crlf tabs tw ci).
 Proof. exact rs_of_config_wf. Qed.
+
+(* The stage list regenerated from make_formatter consists of modelled pre-stages, then formatters
+   of admissible kinds, then the modelled reconstructor; no TokenRemover exists. *)
+Theorem C01_generated_pipeline_admissible :
+  pipeline_shape pipeline = Some [FCounters; FLower; FComment; FCounters; FWrap].
+Proof. exact generated_pipeline_shape. Qed.
+
+Theorem C01_set_content_sites_are_the_modelled_ones :
+  strings_eqb inv_set_content expected_set_content = true /\ inv_token_remover_impls = [].
+Proof. exact (conj inventory_set_content inventory_no_token_remover). Qed.
+
+(* For ANY chain of admissible formatting steps (whatever counters the spacing rule and the wrapper
+   choose, whichever multi-line strings are re-indented), any settings: the output's non-blank
+   characters are those of the token contents, up to ASCII case. *)
+Theorem C01_chain_preserves_nonblank :
+  forall ks rs l l', chain ks l l' -> Forall tok_ok l -> rs_wf rs ->
+  fold_case (strip (reconstruct rs l')) = fold_case (contents_nonblank l).
+Proof. exact chain_reconstruct_nonblank. Qed.
+
+(* Case can change only in keywords (lower-cased) and directive names; line comments and
+   multi-line strings keep their non-blank bytes exactly: the per-token relation *)
+Theorem C01_lowercase_rel : forall p, c01_rel p (lowercase_tok p).
+Proof. exact lowercase_tok_rel. Qed.
+Theorem C01_comment_rel : forall alnum p, c01_rel p (comment_tok alnum p).
+Proof. exact comment_tok_rel. Qed.
+Theorem C01_line_comment_exact : forall alnum c c', format_line_comment alnum c = Some c' -> strip c' = strip c.
+Proof. exact format_line_comment_strip. Qed.
+Theorem C01_directive_case_only :
+  forall c c', format_compiler_directive c = Some c' -> fold_case c' = fold_case c /\ length c' = length c.
+Proof. exact format_compiler_directive_fold. Qed.
